@@ -90,6 +90,38 @@ def run_replay(exe, prop, variant, path, env, timeout=600):
     return verdict, sig, out
 
 
+def fuzz_replay(exe, path, env, timeout=120):
+    """re-execute one saved input through the fuzz binary (no fuzzing); returns (passed, signature, output)"""
+    base = os.path.basename(path)
+    target = base.split("-")[1] if base.startswith("C") else base.split("-")[0]
+    if target not in ("lp", "mps", "bas", "lpgz"):
+        target = "lp"
+    e2 = dict(env)
+    e2["QSX_FUZZ_TARGET"] = target
+    e2.pop("QSX_FUZZ_STATS", None)
+    e2["ASAN_OPTIONS"] = e2.get("ASAN_OPTIONS", "").replace("detect_leaks=1", "detect_leaks=0")   # leaks are C18's subject
+    try:
+        r = subprocess.run([exe, "-detect_leaks=0", os.path.abspath(path)], stdout=subprocess.PIPE, stderr=subprocess.PIPE, env=e2, timeout=timeout)
+    except subprocess.TimeoutExpired:
+        return False, "fuzz:%s:timeout" % target, ""
+    err = r.stderr.decode(errors="replace")
+    if r.returncode == 0:
+        return True, "", err
+    sig = "fuzz:%s:exit%d" % (target, r.returncode)
+    for line in err.splitlines():
+        if line.startswith("QSX-ORACLE-FAILURE:"):
+            sig = "fuzz:%s:oracle:%s" % (target, "-".join(line.split()[1:7]))
+            break
+        if line.startswith("SUMMARY: AddressSanitizer:") or line.startswith("SUMMARY: UndefinedBehaviorSanitizer:"):
+            parts = line.split()
+            kind = parts[2]
+            fn = parts[-1] if " in " in line else "?"
+            if "pthread_kill" in fn:
+                fn = ""
+            sig = "fuzz:%s:%s%s" % (target, kind, ("@" + fn) if fn else "")
+    return False, sig, err
+
+
 def variant_of_file(prop, fname):
     # <ID>[-variant]-<hash>.case
     base = os.path.basename(fname)
@@ -118,9 +150,12 @@ def do_run(prop, tier, seed):
                   discard=0, known_hits={}, budget_hit=0, runs=[])
     exes = {}
     try:
-        flavours = sorted(set(r.get("flavour", "asan") for r in plan["runs"]))
+        flavours = sorted(set(r.get("flavour", "asan") for r in plan["runs"] if r.get("kind", "rc") == "rc")) or ["asan"]
         for fl in flavours:
-            exes[fl] = os.path.join(binaries(fl, any(r.get("kind") == "fuzz" for r in plan["runs"])), "qsx")
+            exes[fl] = os.path.join(binaries(fl), "qsx")
+        fuzz_exe = None
+        if any(r.get("kind") == "fuzz" for r in plan["runs"]):
+            fuzz_exe = os.path.join(binaries("fuzz", need_fuzz=True), "qsx_fuzz")
         # ---------------- replay tier: every regression input ever confirmed
         rdir = os.path.join(REGRESS, prop)
         nreplayed = 0
@@ -132,6 +167,19 @@ def do_run(prop, tier, seed):
                 pth = os.path.join(VERIF, k["replay"])
                 if pth not in files and os.path.exists(pth) and pth.endswith(".case"):
                     files.append(pth)
+        binfiles = []
+        if os.path.isdir(rdir):
+            binfiles = [os.path.join(rdir, f) for f in sorted(os.listdir(rdir)) if f.endswith(".bin")]
+        for path in binfiles:
+            rel = os.path.relpath(path, VERIF)
+            ok, sig, out = fuzz_replay(fuzz_exe, path, env)
+            nreplayed += 1
+            entry = next((k for k in known if k.get("replay") == rel), None)
+            if not ok:
+                if entry and entry.get("state") == "known" and entry.get("key") == sig:
+                    known_lines.append("KNOWN-FINDING: property=%s %s [%s]" % (prop, entry.get("what", ""), sig))
+                else:
+                    violations.append((sig, rel))
         if files:
             for path in files:
                 f = os.path.basename(path)
@@ -164,6 +212,60 @@ def do_run(prop, tier, seed):
                            "--out", out, "--replays", REPLAYS, "--budget", str(cfg.get("budget", 120))]
                     jobs.append((run, cmd, out, cfg))
 
+        fuzzjobs = []
+        for ri, run in enumerate(plan["runs"]):
+            if run.get("kind") != "fuzz":
+                continue
+            cfg = run[tier] if tier in run else run["quick"]
+            for j in range(cfg.get("jobs", 1)):
+                fuzzjobs.append((run, cfg, j))
+
+        def gofuzz(job):
+            run, cfg, j = job
+            target = run["target"]
+            tag = "%s_%d" % (target, j)
+            cdir = os.path.join(scratch, "corpus_" + tag)
+            adir = os.path.join(scratch, "art_" + tag)
+            os.makedirs(cdir)
+            os.makedirs(adir)
+            sd = derive_seed(seed, prop, target, j)
+            empty = cfg.get("empty_corpus_jobs", 0) > j
+            if not empty:
+                subprocess.run([exes[flavours[0]], "emit-corpus", cdir, target, "--n", "24", "--seed", str(sd)],
+                               stdout=subprocess.PIPE, stderr=subprocess.PIPE, env=env)
+            statf = os.path.join(scratch, "fzstats_%s.json" % tag)
+            e2 = dict(env)
+            e2["QSX_FUZZ_TARGET"] = target
+            e2["QSX_FUZZ_STATS"] = statf
+            e2["ASAN_OPTIONS"] = e2.get("ASAN_OPTIONS", "").replace("detect_leaks=1", "detect_leaks=0")
+            dct = os.path.join(VERIF, "dict", ("mps" if target == "mps" else ("bas" if target == "bas" else "lp")) + ".dict")
+            cmd = [fuzz_exe, "-seed=%d" % sd, "-max_total_time=%d" % cfg["time"], "-max_len=%d" % cfg.get("max_len", 65536),
+                   "-timeout=25", "-rss_limit_mb=4096", "-artifact_prefix=" + adir + "/", "-print_final_stats=1",
+                   "-detect_leaks=0", "-dict=" + dct, "-len_control=50", cdir]
+            try:
+                r = subprocess.run(cmd, stdout=subprocess.PIPE, stderr=subprocess.PIPE, env=e2, timeout=cfg["time"] * 3 + 300)
+                err = r.stderr.decode(errors="replace")
+            except subprocess.TimeoutExpired:
+                err = ""
+            st = {}
+            if os.path.exists(statf):
+                try:
+                    st = json.load(open(statf))
+                except Exception:
+                    st = {}
+            execs = 0
+            cov = 0
+            for line in err.splitlines():
+                if line.startswith("stat::number_of_executed_units:"):
+                    execs = int(line.split()[-1])
+                if " cov: " in line:
+                    try:
+                        cov = max(cov, int(line.split(" cov: ")[1].split()[0]))
+                    except Exception:
+                        pass
+            arts = [os.path.join(adir, f) for f in sorted(os.listdir(adir))]
+            return target, j, execs, cov, st, arts, empty
+
         def go(job):
             run, cmd, out, cfg = job
             try:
@@ -175,7 +277,43 @@ def do_run(prop, tier, seed):
 
         with ThreadPoolExecutor(NCPU) as ex:
             results = list(ex.map(go, jobs))
+            fresults = list(ex.map(gofuzz, fuzzjobs))
         found = []
+        noise = {}
+        for target, j, execs, cov, st, arts, empty in fresults:
+            merged["evaluations"] += execs
+            merged["labels"]["fuzz:%s:executions" % target] = merged["labels"].get("fuzz:%s:executions" % target, 0) + execs
+            merged["labels"]["fuzz:%s:max_edge_coverage" % target] = max(merged["labels"].get("fuzz:%s:max_edge_coverage" % target, 0), cov)
+            for key in ("accepted", "rejected_after_3_lines", "skipped_big_exponent", "solved", "basis_accepted"):
+                if key in st:
+                    merged["labels"]["fuzz:%s:%s" % (target, key)] = merged["labels"].get("fuzz:%s:%s" % (target, key), 0) + st[key]
+            if empty:
+                merged["labels"]["fuzz:%s:empty_corpus_jobs" % target] = merged["labels"].get("fuzz:%s:empty_corpus_jobs" % target, 0) + 1
+            # distinct non-trivial inputs are counted inside each job (accepted, or rejected after >= 3 lines)
+            merged["distinct"].update(("fuzz-%s-%d" % (target, j), i) for i in range(st.get("distinct_nontrivial", 0)))
+            if len(merged["samples"]) < 6:
+                merged["samples"].extend(st.get("samples", [])[:1])
+            for a in arts:
+                base = os.path.basename(a)
+                if base.startswith("crash-") or base.startswith("leak-"):
+                    dst = os.path.join(REPLAYS, "%s-%s-%s.bin" % (prop, target, base.split("-", 1)[1][:16]))
+                    shutil.copy(a, dst)
+                    res = [fuzz_replay(fuzz_exe, dst, env) for _ in range(3)]
+                    if all(not ok for ok, sg, o in res):
+                        sig = res[0][1]
+                        k = next((k for k in known if k.get("state") == "known" and k.get("property") == prop and k.get("key") == sig), None)
+                        if k:
+                            known_lines.append("KNOWN-FINDING: property=%s %s [%s]" % (prop, k.get("what", ""), sig))
+                        elif not any(v[0] == sig for v in violations):
+                            violations.append((sig, os.path.relpath(dst, VERIF)))
+                    else:
+                        flaky.append(dict(sig="fuzz", replay=dst, replays=[ok for ok, sg, o in res]))
+                else:
+                    kind = base.split("-")[0]
+                    noise[kind] = noise.get(kind, 0) + 1
+        if noise:
+            merged["inconclusive_why"].update({"fuzz:" + k: v for k, v in noise.items()})
+            merged["inconclusive"] += sum(noise.values())
         for job, rc, out, err in results:
             run, cmd, statf, cfg = job
             if os.path.exists(statf):
